@@ -11,7 +11,7 @@ Import ListNotations.
 From Anthem Require Import Syntax.Fol Syntax.Asp Sem.Domain Sem.Sat Sem.AspRef
   Model.FreshNames Model.TauStar
   Proofs.FreshNamesOk Proofs.TauStarBase Proofs.TauStarVal Proofs.TauStarBody Proofs.TauStarRule
-  Proofs.TauStarProgram Proofs.TauStarClosed Model.EvalAsp Proofs.EvalAspOk.
+  Proofs.TauStarProgram Proofs.TauStarClosed Proofs.TauStarClassical Model.EvalAsp Proofs.EvalAspOk.
 Open Scope string_scope.
 
 (* (a) val_t(Z) holds exactly when the value of Z is one of the values of t, for EVERY term (all six
@@ -93,6 +93,26 @@ Theorem C01_closed :
   forall (P : program) (G : theory), tau_star P = Some G -> forall F, In F G -> free_variables F = [].
 Proof. exact tau_star_closed. Qed.
 Print Assumptions C01_closed.
+
+(* tau*(P) mentions exactly the predicates (symbol/arity) of P *)
+Theorem C01_predicates :
+  forall (P : program) (G : theory) (p : pred), tau_star P = Some G ->
+  (In p (theory_predicates G) <-> In p (program_preds P)).
+Proof. exact tau_star_predicates. Qed.
+Print Assumptions C01_predicates.
+
+(* classical reading used by the completion (C04): the antecedent val_t(V) & tau^B(Body) of a rule
+   with head p(t) is satisfiable with V := d exactly for the tuples d the rule derives *)
+Theorem C01_fo_body_classical :
+  forall (FI : fint) (T : pint) (r : rule) (a : atom) (globals : list string),
+  head_atom (rhead r) = Some a -> fresh_globals r globals ->
+  let fvars := firstn (List.length (aterms a)) globals in
+  forall d,
+    (exists e, map (getv e) (map gvar fvars) = d /\
+               csat FI T e (FBin CAnd (valtz (aterms a) (map gvar fvars)) (tau_body (rbody r)))) <->
+    (exists sg, tuple_vals sg (aterms a) d /\ body_sat T T sg (rbody r)).
+Proof. exact fo_body_classical. Qed.
+Print Assumptions C01_fo_body_classical.
 
 (* the executable reference evaluator used by the semantic cross-check (driver op sem_tau_star)
    computes, with the trivial universe filter, exactly the value sets of the oracle *)
